@@ -126,8 +126,9 @@ func (h *history) dbAt(off int64) int {
 
 func (h *history) contains(id string) bool { _, ok := h.idx[id]; return ok }
 
-func genPiece(r *rand.Rand, tag string, n int) *gen.Stream {
-	return gen.GenStream(r, gen.StreamOptions{Hist: tag, NCmds: n, MaxDB: 3, PSelect: 0.15, PTxn: 0.06, PNoise: 0.1, MaxTxnLen: 3, StartDB: -1})
+// genPiece generates a stretch of stream; ptxn is the share of source MULTI/EXEC groups.
+func genPiece(r *rand.Rand, tag string, n int, ptxn float64) *gen.Stream {
+	return gen.GenStream(r, gen.StreamOptions{Hist: tag, NCmds: n, MaxDB: 3, PSelect: 0.15, PTxn: ptxn, PNoise: 0.1, MaxTxnLen: 3, StartDB: -1})
 }
 
 func sentinelPiece(tag string, db int) (*gen.Stream, string) {
